@@ -105,6 +105,15 @@ pub fn scenario(ctx: &Ctx, idx: u64, check: &'static str, stream: &'static str) 
         }
         plans.sort_by_key(|p| (p.silent_at.is_some(), std::cmp::Reverse(p.silent_at)));
 
+        // Nodes the node under test first hears of in the middle of a search (named in get_peers
+        // answers only) and that never answer anything: the search queries them in the very step
+        // that introduces them. Only when searches run and the network stays small enough for no
+        // bucket to fill.
+        let search_only: Vec<(Id, SocketAddr)> = if n <= 6 && rng.gen_bool(0.5) {
+            (0..rng.gen_range(1..=2u32)).map(|i| (gen::rand_id(&mut rng), world_addr(v6, 100 + i))).collect()
+        } else {
+            Vec::new()
+        };
         let nodes: Vec<WNode> = plans
             .iter()
             .map(|p| {
@@ -118,6 +127,10 @@ pub fn scenario(ctx: &Ctx, idx: u64, check: &'static str, stream: &'static str) 
         let mut world = World::new(nodes);
         world.keep_served = false;
         world.omit_silent = rng.gen_bool(0.5);
+        world.search_only_names = search_only.clone();
+        for (gid, gaddr) in &search_only {
+            plans.push(ContactPlan { id: *gid, addr: *gaddr, silent_at: Some(0), query_every: 0, unsendable: false });
+        }
         let owned: HashSet<SocketAddr> = plans.iter().map(|p| p.addr).collect();
         net.add_actor(move |a| owned.contains(a), world);
         let max_lat = *[10 * MS, 100 * MS, 240 * MS].choose(&mut rng).unwrap();
@@ -290,6 +303,8 @@ pub fn scenario(ctx: &Ctx, idx: u64, check: &'static str, stream: &'static str) 
             let mut accepted: Vec<Micros> = Vec::new();
             // queries the node sent to the contact: (t, tid, target)
             let mut to_c: Vec<(Micros, Vec<u8>, Option<Id>)> = Vec::new();
+            // search queries (get_peers / announce_peer) the node sent to the contact
+            let mut search_to_c: Vec<Micros> = Vec::new();
             // times at which some response delivered to the node named this contact
             let mut mentions: Vec<Micros> = Vec::new();
             for w in &log {
@@ -300,6 +315,9 @@ pub fn scenario(ctx: &Ctx, idx: u64, check: &'static str, stream: &'static str) 
                                 Query::FindNode { target, .. } => Some(*target),
                                 _ => None,
                             };
+                            if matches!(q, Query::GetPeers { .. } | Query::AnnouncePeer { .. }) {
+                                search_to_c.push(w.t);
+                            }
                             to_c.push((w.t, k.t.clone(), target));
                         }
                     }
@@ -362,12 +380,21 @@ pub fn scenario(ctx: &Ctx, idx: u64, check: &'static str, stream: &'static str) 
                         .filter(|(_, _, target)| matches!(target, Some(tg) if *tg != id))
                         .map(|(t, _, _)| (*t, 2u8)),
                 );
+                // Search queries are booked too, but only against a contact that is in the table when
+                // they are sent. In these small networks no bucket ever fills, so a contact is in the
+                // table from its first mention / answer on (kind 3: judged below with `known`).
+                timeline.extend(search_to_c.iter().map(|t| (*t, 3u8)));
                 timeline.sort();
                 let mut last_from: Option<Micros> = None;
                 let mut dropped = false;
+                let mut known = false;
                 for (t, kind) in timeline {
+                    if kind == 3 && !known {
+                        continue;
+                    }
                     match kind {
                         0 => {
+                            known = true;
                             last_from = Some(t);
                             count = 0;
                             if dropped {
@@ -376,6 +403,7 @@ pub fn scenario(ctx: &Ctx, idx: u64, check: &'static str, stream: &'static str) 
                             }
                         }
                         1 => {
+                            known = true;
                             // A mention re-introduces a dropped contact with a clean slate. The node
                             // may consider the contact dropped earlier than this conservative count
                             // does, so the count restarts on every mention.
